@@ -314,17 +314,32 @@ def scratch_invariants(qc, n_in, sp=None, preset=None):
 def blame_wrong_output(case, unc, compile_fn, log):
     """Root cause of an output that the C02 monitor finds wrong: (1) in-place negation finding, by counterfactual;
     (2) a recycled ancilla that an inline uncompute() released while not |0> (KF-C03-2), by the scratch invariants."""
-    install_counterfactual()
-    COUNTERFACTUAL["no_inplace_not"] = True
+    # (1) needs BOTH: the shadow monitor saw an in-place negation of a qubit that a pending operand list referred to,
+    # and the failure vanishes when only that branch is disabled
+    from ..monitors import shadow
+
+    clobbers = []
     try:
-        qc2, n2, r2, e2, _ = compile_fn(case, unc)
-        o2 = observe(qc2, n2, r2, e2)
-        if not o2.wrong_out and not o2.ret_unmapped:
-            return "c02_inplace_not_clobbers_operand"
+        shadow.install()
+        shadow.arm(True)
+        compile_fn(case, unc)
+        clobbers = list(shadow.STATE.get("clobbers", []))
     except Exception:
         pass
     finally:
-        COUNTERFACTUAL["no_inplace_not"] = False
+        shadow.arm(False)
+    if clobbers:
+        install_counterfactual()
+        COUNTERFACTUAL["no_inplace_not"] = True
+        try:
+            qc2, n2, r2, e2, _ = compile_fn(case, unc)
+            o2 = observe(qc2, n2, r2, e2)
+            if not o2.wrong_out and not o2.ret_unmapped:
+                return "c02_inplace_not_clobbers_operand"
+        except Exception:
+            pass
+        finally:
+            COUNTERFACTUAL["no_inplace_not"] = False
     try:
         qc1, n1, r1, e1, _ = compile_fn(case, unc)
         first, cls = scratch_invariants(qc1, len(n1))
